@@ -79,3 +79,34 @@ def cmp_norm(f):
     if cl is not None and cr is None:
         return SWAP[op], r, cl
     return None
+
+
+def guard_facts(fn, blk, st, sd=None):
+    """all facts known to hold when statement st of block blk executes: conditions of dominating CFG edges
+    plus the conditions of the enclosing structured statements (which also covers `a || b` guards, whose
+    then-branch is not dominated by a single edge)"""
+    from .core import subst
+    out = []
+    for e in fn.cfg.dominating_edges(blk):
+        out += edge_facts(e, sd)
+    seen = {fact_str(f) for f in out}
+    for g in fn.enclosing(st):
+        if g[0] == 'if':
+            c = subst(g[1], sd) if sd else g[1]
+            fs = literals(c, g[2])
+        elif g[0] == 'loop':
+            continue
+        elif g[0] == 'switch':
+            c = subst(g[1], sd) if sd else g[1]
+            vals = g[2]
+            if not vals or 'default' in vals:
+                fs = [('case-default', c)]
+            else:
+                fs = [('case', c, tuple(vals))]
+        else:
+            continue
+        for f in fs:
+            if fact_str(f) not in seen:
+                seen.add(fact_str(f))
+                out.append(f)
+    return out
